@@ -18,14 +18,15 @@ import (
 )
 
 type Program struct {
-	prog   *ssa.Program
-	pkgs   map[string]*packages.Package
-	spkgs  map[string]*ssa.Package
-	db     *ContractDB
-	fns    map[string]*ssa.Function // by contract key
-	named  []*types.Named
-	emb    map[string]bool
-	loadMs int64
+	prog       *ssa.Program
+	pkgs       map[string]*packages.Package
+	spkgs      map[string]*ssa.Package
+	db         *ContractDB
+	fns        map[string]*ssa.Function // by contract key
+	named      []*types.Named
+	emb        map[string]bool
+	embAllowed map[string]bool // nested struct types modelled as objects of their own (opt-in per property)
+	loadMs     int64
 }
 
 const repoModule = "github.com/dave/dst"
@@ -64,7 +65,7 @@ func loadProgram(patterns []string, extra []string) (*Program, error) {
 		return nil, fmt.Errorf("the tree does not compile: %s", strings.Join(errs, "; "))
 	}
 	prog, _ := ssautil.AllPackages(pkgs, ssa.NaiveForm|ssa.GlobalDebug)
-	p := &Program{prog: prog, pkgs: map[string]*packages.Package{}, spkgs: map[string]*ssa.Package{}, fns: map[string]*ssa.Function{}}
+	p := &Program{prog: prog, pkgs: map[string]*packages.Package{}, spkgs: map[string]*ssa.Package{}, fns: map[string]*ssa.Function{}, embAllowed: map[string]bool{}}
 	packages.Visit(pkgs, nil, func(pk *packages.Package) {
 		p.pkgs[pk.PkgPath] = pk
 	})
@@ -237,9 +238,11 @@ func (p *Program) newExec(unitName string) *Exec {
 	u := newUniverse()
 	u.allNamed = p.named
 	for k := range p.emb {
-		u.embTypes[k] = true
+		if p.embAllowed[k] {
+			u.embTypes[k] = true
+		}
 	}
-	ex := &Exec{u: u, prog: p.prog, pkgs: p.pkgs, spkgs: p.spkgs, db: p.db, owners: map[string]types.Type{}, callOrd: map[string]int{}, fset: p.prog.Fset, maxInline: 6}
+	ex := &Exec{u: u, prog: p.prog, pkgs: p.pkgs, spkgs: p.spkgs, db: p.db, owners: map[string]types.Type{}, callOrd: map[string]int{}, fset: p.prog.Fset, maxInline: 6, knownType: map[string]int{}}
 	ex.unit = &Unit{Name: unitName, U: u}
 	return ex
 }
@@ -255,19 +258,76 @@ type UnitOpts struct {
 	AtExit        func(ex *Exec, fr *frame, g string, st *State, res []Val)
 }
 
+// verifyFunc builds the unit until the set of heap keys it touches is stable: every key is
+// registered before execution starts, so that havocs (calls, loops) cover keys first read later.
 func (p *Program) verifyFunc(key string, opts *UnitOpts) (unit *Unit, err error) {
+	prereg := map[string]string{}
+	entered := map[int]bool{}
+	for pass := 0; pass < 5; pass++ {
+		var ent map[int]bool
+		unit, ent, err = p.verifyFuncOnce(key, opts, prereg, entered)
+		if unit == nil {
+			return unit, err
+		}
+		grew := false
+		for h := range ent {
+			if !entered[h] {
+				entered[h] = true
+				grew = true
+			}
+		}
+		for k, srt := range unit.U.keySorts {
+			if isLocalKey(k) {
+				continue
+			}
+			if _, ok := prereg[k]; !ok {
+				prereg[k] = srt
+				grew = true
+			}
+		}
+		if !grew {
+			return unit, err
+		}
+	}
+	return unit, fmt.Errorf("%s: heap key set did not stabilise", key)
+}
+
+func (p *Program) verifyFuncOnce(key string, opts *UnitOpts, prereg map[string]string, entered map[int]bool) (unit *Unit, ent map[int]bool, err error) {
 	fn := p.fns[key]
 	if fn == nil {
-		return nil, fmt.Errorf("anchor-missing: function %s not found", key)
+		return nil, nil, fmt.Errorf("anchor-missing: function %s not found", key)
 	}
 	fc := p.db.Funcs[key]
 	if fc == nil {
-		return nil, fmt.Errorf("no contract for %s", key)
+		return nil, nil, fmt.Errorf("no contract for %s", key)
+	}
+	if opts != nil && strings.HasPrefix(opts.NameSuffix, "/") {
+		if sub, ok := fc.Cases[opts.NameSuffix[1:]]; ok {
+			// merge the case section into a copy of the function's contract
+			m := *fc
+			m.Requires = append(append([]Clause{}, fc.Requires...), sub.Requires...)
+			m.Ensures = append(append([]Clause{}, fc.Ensures...), sub.Ensures...)
+			m.Lets = append(append([]Clause{}, fc.Lets...), sub.Lets...)
+			m.Loops = map[int][]Clause{}
+			for k, v := range fc.Loops {
+				m.Loops[k] = v
+			}
+			for k, v := range sub.Loops {
+				m.Loops[k] = append(append([]Clause{}, m.Loops[k]...), v...)
+			}
+			fc = &m
+		}
 	}
 	if opts == nil {
 		opts = &UnitOpts{}
 	}
 	ex := p.newExec(shortKey(key) + opts.NameSuffix)
+	ex.unitSuffix = opts.NameSuffix
+	ex.enteredPrev = entered
+	ex.entered = map[int]bool{}
+	for k, srt := range prereg {
+		ex.u.keySorts[k] = srt
+	}
 	defer func() {
 		if r := recover(); r != nil {
 			switch e := r.(type) {
@@ -279,6 +339,7 @@ func (p *Program) verifyFunc(key string, opts *UnitOpts) (unit *Unit, err error)
 				panic(r)
 			}
 			unit = ex.unit
+			ent = ex.entered
 		}
 	}()
 	u := ex.u
@@ -305,18 +366,18 @@ func (p *Program) verifyFunc(key string, opts *UnitOpts) (unit *Unit, err error)
 	for _, r := range fc.Requires {
 		t, e := env.evalBool(r.Expr)
 		if e != nil {
-			return ex.unit, fmt.Errorf("%s requires: %v", key, e)
+			return ex.unit, ex.entered, fmt.Errorf("%s requires: %v", key, e)
 		}
 		u.fact(t)
 	}
 	for _, r := range opts.ExtraRequires {
 		se, e := parseSpec(r)
 		if e != nil {
-			return ex.unit, e
+			return ex.unit, ex.entered, e
 		}
 		t, e := env.evalBool(se)
 		if e != nil {
-			return ex.unit, fmt.Errorf("%s extra requires: %v", key, e)
+			return ex.unit, ex.entered, fmt.Errorf("%s extra requires: %v", key, e)
 		}
 		u.fact(t)
 	}
@@ -340,7 +401,7 @@ func (p *Program) verifyFunc(key string, opts *UnitOpts) (unit *Unit, err error)
 		}
 		t, er := post.evalBool(e.Expr)
 		if er != nil {
-			return ex.unit, fmt.Errorf("%s ensures %s: %v", key, lbl, er)
+			return ex.unit, ex.entered, fmt.Errorf("%s ensures %s: %v", key, lbl, er)
 		}
 		ex.oblige(fmt.Sprintf("%s%s#ensures:%s", shortFn(fn), opts.NameSuffix, lbl), "ensures", g, t, e.Src, ex.clauseWhere(e))
 	}
@@ -352,11 +413,11 @@ func (p *Program) verifyFunc(key string, opts *UnitOpts) (unit *Unit, err error)
 	for _, l := range extra {
 		se, e := parseSpec(opts.ExtraEnsures[l])
 		if e != nil {
-			return ex.unit, e
+			return ex.unit, ex.entered, e
 		}
 		t, e := post.evalBool(se)
 		if e != nil {
-			return ex.unit, fmt.Errorf("%s ensures %s: %v", key, l, e)
+			return ex.unit, ex.entered, fmt.Errorf("%s ensures %s: %v", key, l, e)
 		}
 		ex.oblige(fmt.Sprintf("%s%s#ensures:%s", shortFn(fn), opts.NameSuffix, l), "ensures", g, t, opts.ExtraEnsures[l], "")
 	}
@@ -370,7 +431,7 @@ func (p *Program) verifyFunc(key string, opts *UnitOpts) (unit *Unit, err error)
 	// canary: the exit must be reachable and the facts consistent there
 	can := &Obligation{Name: shortFn(fn) + opts.NameSuffix + "#canary:exit-reachable", Kind: "canary", Guard: g, Goal: "false", NDecl: len(u.decls), Expect: Sat, Src: "postcondition false must not be provable"}
 	ex.unit.Obls = append(ex.unit.Obls, can)
-	return ex.unit, nil
+	return ex.unit, ex.entered, nil
 }
 
 func tupleOf(res []Val, sig *types.Signature) Val {
@@ -409,7 +470,12 @@ func (ex *Exec) frameObligations(fr *frame, fc *FuncContract, g string, s *State
 	env := ex.specEnv(fr, fr.entry, nil)
 	allowed := map[string]bool{"next": true}
 	preciseAt := map[string][]string{}
+	newObjects := false
 	for _, it := range fc.Modifies {
+		if strings.TrimSpace(it) == "newobjects" {
+			newObjects = true
+			continue
+		}
 		ks, pr := ex.modItem(it, env)
 		for i, k := range ks {
 			allowed[k] = true
@@ -429,11 +495,25 @@ func (ex *Exec) frameObligations(fr *frame, fc *FuncContract, g string, s *State
 		if isLocalKey(k) || k == "*defer" {
 			continue
 		}
+		if newObjects && !allowed[k] {
+			// keys whose term is still the entry constant were not written on any executed path
+			if t, touched := s.vars[k]; !touched || t == smtName(k) {
+				continue
+			}
+		}
+		if newObjects && !allowed[k] && (strings.HasPrefix(k, "H$") || strings.HasPrefix(k, "A$") || strings.HasPrefix(k, "M$") || strings.HasPrefix(k, "MD$") || strings.HasPrefix(k, "C$") || k == "*new") {
+			if k == "*new" {
+				continue
+			}
+			goal := fmt.Sprintf("(forall ((x!f Int)) (=> (< x!f %s) (= (select %s x!f) (select %s x!f))))", u.get(fr.entry, "next"), u.get(s, k), u.get(fr.entry, k))
+			ex.oblige(fmt.Sprintf("%s%s#frame-new:%s", shortFn(fr.fn), ex.unitSuffix, k), "frame", g, goal, "only objects allocated by this call are written ("+k+")", "")
+			continue
+		}
 		goal := "true"
 		if !allowed[k] && !allowed["*"] {
 			goal = "false"
 		}
-		o := ex.oblige(fmt.Sprintf("%s#frame:%s", shortFn(fr.fn), k), "frame", "true", goal, "modifies clause covers writes to "+k, "")
+		o := ex.oblige(fmt.Sprintf("%s%s#frame:%s", shortFn(fr.fn), ex.unitSuffix, k), "frame", "true", goal, "modifies clause covers writes to "+k, "")
 		o.Guard = "true"
 	}
 	var ks []string
@@ -454,12 +534,15 @@ func (ex *Exec) frameObligations(fr *frame, fc *FuncContract, g string, s *State
 			ne = append(ne, not(eq("x!f", a)))
 		}
 		goal := fmt.Sprintf("(forall ((x!f Int)) (=> %s (= (select %s x!f) (select %s x!f))))", and(ne...), u.get(s, k), u.get(fr.entry, k))
-		ex.oblige(fmt.Sprintf("%s#frame-object:%s", shortFn(fr.fn), k), "frame", g, goal, "only the named object's "+k+" changes", "")
+		ex.oblige(fmt.Sprintf("%s%s#frame-object:%s", shortFn(fr.fn), ex.unitSuffix, k), "frame", g, goal, "only the named object's "+k+" changes", "")
 	}
 }
 
 func (ex *Exec) funcModKeysTop(fr *frame, keys map[string]bool) {
 	for _, b := range fr.fn.Blocks {
+		if !fr.visited[b] {
+			continue // unreachable in this unit (other cases of a per-case unit)
+		}
 		for _, in := range b.Instrs {
 			ex.instrModKeys(fr, in, keys, map[*ssa.Function]bool{})
 		}
@@ -468,14 +551,170 @@ func (ex *Exec) funcModKeysTop(fr *frame, keys map[string]bool) {
 
 // ---- queries ----
 
-func (u *Unit) query(o *Obligation, withModel bool) string {
+// symbolsOf tokenises an SMT line into the declared symbols it mentions.
+func (u *Unit) symbolsOf(line string) []string {
+	if u.symCache == nil {
+		u.symCache = map[string][]string{}
+	}
+	if s, ok := u.symCache[line]; ok {
+		return s
+	}
+	var out []string
+	seen := map[string]bool{}
+	i := 0
+	for i < len(line) {
+		c := line[i]
+		if c == '|' {
+			j := strings.IndexByte(line[i+1:], '|')
+			if j < 0 {
+				break
+			}
+			tok := line[i : i+j+2]
+			if _, ok := u.U.declared[tok]; ok && !seen[tok] {
+				seen[tok] = true
+				out = append(out, tok)
+			}
+			i += j + 2
+			continue
+		}
+		if c == '(' || c == ')' || c == ' ' || c == '\n' || c == '\t' {
+			i++
+			continue
+		}
+		j := i
+		for j < len(line) && line[j] != '(' && line[j] != ')' && line[j] != ' ' && line[j] != '\n' && line[j] != '\t' {
+			j++
+		}
+		tok := line[i:j]
+		if _, ok := u.U.declared[tok]; ok && !seen[tok] {
+			seen[tok] = true
+			out = append(out, tok)
+		}
+		i = j
+	}
+	u.symCache[line] = out
+	return out
+}
+
+// slice keeps the declarations and the facts relevant to the goal: a fact is relevant if it
+// mentions no array-sorted symbol at all, or an array-sorted symbol already relevant; a relevant
+// fact makes all its symbols relevant. Dropping facts only weakens the hypotheses (sound).
+func (u *Unit) slice(o *Obligation) []bool {
+	decls := u.U.decls[:o.NDecl]
+	keep := make([]bool, len(decls))
+	rel := map[string]bool{}
+	isArr := func(sym string) bool {
+		return strings.HasPrefix(u.U.declared[sym], "(Array")
+	}
+	defBody := map[string]int{} // define-fun name -> decl index
+	combo := func(d string) bool {
+		return strings.HasPrefix(d, "(declare-const ") && strings.Contains(d, "\n(assert ")
+	}
+	for i, d := range decls {
+		if strings.HasPrefix(d, "(define-fun ") {
+			name := splitTop(d[1 : len(d)-1])[1]
+			defBody[name] = i
+		} else if combo(d) {
+			first := d[:strings.Index(d, "\n")]
+			name := splitTop(first[1 : len(first)-1])[1]
+			defBody[name] = i
+		}
+	}
+	var work []string
+	add := func(sym string) {
+		if !rel[sym] {
+			rel[sym] = true
+			work = append(work, sym)
+		}
+	}
+	for _, s := range u.symbolsOf(o.Guard + " " + o.Goal) {
+		add(s)
+	}
+	type factInfo struct {
+		idx  int
+		syms []string
+		arrs []string
+	}
+	var facts []factInfo
+	for i, d := range decls {
+		switch {
+		case combo(d):
+			// kept only through defBody when its symbol becomes relevant
+		case strings.HasPrefix(d, "(assert "):
+			fi := factInfo{idx: i, syms: u.symbolsOf(d)}
+			for _, s := range fi.syms {
+				if isArr(s) {
+					fi.arrs = append(fi.arrs, s)
+				}
+			}
+			facts = append(facts, fi)
+		case strings.HasPrefix(d, "(declare-fun "):
+			keep[i] = true
+		}
+	}
+	for changed := true; changed; {
+		changed = false
+		// close under definitions
+		for len(work) > 0 {
+			s := work[len(work)-1]
+			work = work[:len(work)-1]
+			if di, ok := defBody[s]; ok && !keep[di] {
+				keep[di] = true
+				for _, t := range u.symbolsOf(decls[di]) {
+					add(t)
+				}
+			}
+		}
+		for _, f := range facts {
+			if keep[f.idx] {
+				continue
+			}
+			relevant := len(f.arrs) == 0
+			for _, a := range f.arrs {
+				if rel[a] {
+					relevant = true
+					break
+				}
+			}
+			if relevant {
+				keep[f.idx] = true
+				changed = true
+				for _, t := range f.syms {
+					add(t)
+				}
+			}
+		}
+	}
+	// declarations of relevant constants
+	for i, d := range decls {
+		if strings.HasPrefix(d, "(declare-const ") && !combo(d) {
+			name := splitTop(d[1 : len(d)-1])[1]
+			if rel[name] {
+				keep[i] = true
+			}
+		}
+	}
+	return keep
+}
+
+// query renders the obligation; dialect "z3" uses lambda-defined arrays where available.
+func (u *Unit) query(o *Obligation, withModel bool, dialect string) string {
+	u.mu.Lock()
+	defer u.mu.Unlock()
 	var b strings.Builder
 	b.WriteString("; unit " + u.Name + "\n; obligation " + o.Name + "\n")
 	if o.Src != "" {
 		b.WriteString("; " + strings.ReplaceAll(o.Src, "\n", " ") + "\n")
 	}
 	b.WriteString(u.U.prelude())
-	for _, d := range u.U.decls[:o.NDecl] {
+	keep := u.slice(o)
+	for i, d := range u.U.decls[:o.NDecl] {
+		if !keep[i] {
+			continue
+		}
+		if alt, ok := u.U.altZ3[i]; ok && dialect == "z3" {
+			d = alt
+		}
 		b.WriteString(d)
 		b.WriteString("\n")
 	}
@@ -538,25 +777,34 @@ func runObligations(units []*Unit, ro RunOpts) []*OblResult {
 			}
 			file := filepath.Join(ro.OutDir, sanitize(j.o.Name)+".smt2")
 			r.File = file
-			if err := writeFile(file, j.u.query(j.o, true)); err != nil {
+			if err := writeFile(file, j.u.query(j.o, true, "generic")); err != nil {
 				r.Note = err.Error()
 				return
+			}
+			zfile := strings.TrimSuffix(file, ".smt2") + ".z3.smt2"
+			if len(j.u.U.altZ3) > 0 {
+				if err := writeFile(zfile, j.u.query(j.o, true, "z3")); err != nil {
+					r.Note = err.Error()
+					return
+				}
+			} else {
+				zfile = file
 			}
 			to := ro.Timeout
 			if j.o.Expect == Sat {
 				// canaries: a short run is enough; unsat is the only bad answer
-				if to > 5 {
-					to = 5
+				if to > 3 {
+					to = 3
 				}
 			}
-			r.Res = runSolvers(file, to, ro.Seed, nil)
+			r.Res = runSolvers(file, zfile, to, ro.Seed, nil)
 			if j.o.Expect == Sat {
 				r.OK = r.Res.Verdict != Unsat
 			} else {
 				r.OK = r.Res.Verdict == Unsat
 			}
 			if ro.CrossAll && j.o.Expect == Unsat {
-				r.AllRuns = runSolversAll(file, ro.Timeout, ro.Seed)
+				r.AllRuns = runSolversAll(file, zfile, ro.Timeout, ro.Seed)
 			}
 		}(j)
 	}
